@@ -23,6 +23,12 @@ _ALLOWED_FUNCTIONS: dict[str, Callable[..., sympy.Expr]] = {
     "min": sympy.Min,
     "Min": sympy.Min,
     "floor": sympy.floor,
+    # Names SymPy uses when printing the result of math.ceil() / math.trunc() on a dimension
+    "ceiling": sympy.ceiling,
+    "ceil": sympy.ceiling,
+    "Abs": sympy.Abs,
+    "abs": sympy.Abs,
+    "sign": sympy.sign,
     "sqrt": sympy.sqrt,
     "mod": sympy.Mod,
     "Mod": sympy.Mod,
